@@ -3,6 +3,7 @@
 From Coq Require Import ZArith NArith List Bool String Permutation.
 From DM Require Import Base.PyVal Spec.Nf Spec.Table Spec.Ops Proofs.ListX Proofs.TableFacts Proofs.TakeFacts.
 From DM Require Import Model.LTable Gen.KCore Model.Core Proofs.CoreRefine.
+From DM Require Import Spec.SeriesEnc Proofs.SeriesEncFacts.
 Import ListNotations.
 
 (* After ANY finite sequence of operations of the alphabet (Spec.Ops.op), applied to any pool members
@@ -87,6 +88,30 @@ Print Assumptions C01_l1_merge_refines.
 Theorem C01_dump_invariant_implies_L0_invariant : forall t, inv_b t = true -> twf (abs t).
 Proof. exact inv_b_twf. Qed.
 Print Assumptions C01_dump_invariant_implies_L0_invariant.
+
+(* SeriesColumns: a series column of depth d is d pseudo-columns name#j of the same table (Spec/SeriesEnc.v), the
+   series-specific operations are finite sequences of alphabet operations; so after ANY history that also creates,
+   writes, deepens, renames, copies and deletes series columns the invariant holds: one series cell per row, moved,
+   selected, merged, resized and concatenated together with the other cells of its row *)
+Theorem C01_series_histories_keep_the_invariant : forall sops : list sop, wwf (srun sops w0).
+Proof. exact srun_wf0. Qed.
+Print Assumptions C01_series_histories_keep_the_invariant.
+
+Definition ex_series_history : list sop :=
+  [SPlain (ONew 3); SPlain (OSetCol 0 "a" (RSeq [PInt 3; PInt 1; PInt 2]));
+   SNew 0 "s" 2 0; SSet 0 "s" 2 (ASlice None None) (SVMatrix [[PInt 10; PInt 11]; [PInt 20; PInt 21]; [PInt 30; PInt 31]]);
+   SPlain (OSort 0 "a" [1; 2; 0]%nat); SSetDepth 1 "s" 2 3; SSetSample 1 "s" (AInt 0) [2%nat] (RScalar (PInt 7));
+   SPlain (OSetLength 1 4%Z)].
+Example C01_series_example :
+  match nth_error (pool (srun ex_series_history w0)) 1 with
+  | Some t => map (fun '(n, _, c) => (n, c)) (view t) =
+              [("a", [VInt 1; VInt 2; VInt 3; VStr ""]);
+               ("s#0", [VFlt (FFin false 5 2); VFlt (FFin false 15 1); VFlt (FFin false 5 1); VFlt FNan]);
+               ("s#1", [VFlt (FFin false 21 0); VFlt (FFin false 31 0); VFlt (FFin false 11 0); VFlt FNan]);
+               ("s#2", [VFlt (FFin false 7 0); VFlt FNan; VFlt FNan; VFlt FNan])]
+  | None => False
+  end.
+Proof. vm_compute. reflexivity. Qed.
 
 (* non-vacuity: a concrete history mixing column kinds, selection, sort order, resize and merge *)
 Definition ex_history : list op :=
